@@ -72,7 +72,7 @@ def engine_configs(tier, seed):
         c.update(tcpSmall=2, tcpLarge=1, udpClients=10 if not thorough else 16, tcpClients=4 if not thorough else 8,
                  rounds=r, burst=6, tcpConnsEach=6 if not thorough else 30, tcpFrames=8,
                  perturb=True, traceLimit=400000)
-        # bursts holding a destination the kernel refuses (batched send only): after the traced load
+        # bursts holding a destination the kernel refuses (a raw-socket datagram with a non-loopback source address sent to the loopback listener; batched send only): after the traced load
         c["poison"] = (60 if not thorough else 400) if c["mode"] == "batch" else 0
     return cfgs
 
